@@ -760,7 +760,7 @@ class StmtMixin:
         finally:
             st.guards.pop()
         st.locals = saved
-        if len(st.log) != nlog or any(st.heap.get(f) is not heap_before.get(f) for f in st.heap):
+        if len(st.log) != nlog or any(st.heap.get(f) is not heap_before[f] for f in heap_before):
             raise Unsupported('comprehension element with side effects')
         extra = st.pc[npc:]
         del st.pc[npc:]
